@@ -40,6 +40,10 @@ TEXT = {
             'step as a violation.', '6/C11'),
     'C13': ('Two real TcpConnection objects on simulated sockets; an adversary fragments the stream arbitrarily and rewrites frames in flight; the '
             'delivered sequence is compared with the sent one after every action, invalid frames must end in exactly one disconnect.', '6/C13'),
+    'C14': ('The real TCPTransport/TcpServer/TcpConnection of 2-4 real nodes run on simulated sockets under virtual time through refused connects, '
+            'RST, black holes, dropped flows (half-open on both sides), kills without FIN and restarts; every delivered message is attributed '
+            '(claimed sender really sent it to this node, in order, and is a member), every pair must be connected on both sides within the bound '
+            'once the network is healthy, and probes on links of every age check that "connected" means one message gets through exactly once.', '6/C14'),
     'C12': ('Commands that raise deterministically (user method and documented battery errors) are mixed into adversarial runs with restarts from '
             'the journal; a re-executed position, a stalled applied index (C05 stuck oracle), diverging digests (C01 oracle, model swallows the same '
             'exception) or a wrong/duplicate callback (C02 oracle) is a violation.', '6/C12'),
@@ -65,6 +69,7 @@ TECH = {
     'C10': 'runtime monitor: member set vs fold of the log after every step, change gate, agreement at rest, plus C01-C05 monitors',
     'C11': 'runtime monitor over an enumerated size sweep: executed vs submitted arguments, exactly-once count, escaped exceptions',
     'C13': 'history oracle (delivered sequence is a prefix of the sent one) under adversarial fragmentation and targeted corruption',
+    'C14': 'runtime monitor on the real TCP stack over simulated sockets: attribution log, re-establishment bound, probe round trips',
     'C12': 'runtime monitor: re-execution / stall / divergence detection with raising commands in the workload',
     'C08': 'reference-model monitor + crash-point enumeration by file snapshots at every storage primitive',
     'C15': 'model-based runtime comparison with builtin containers (direct, snapshot round trip, replicated)',
@@ -117,6 +122,8 @@ def main():
              'kind_free_text': 'scripted healthy-network E1 runs over an enumerated argument size sweep'},
             {'name': 'E4 framefuzz', 'path': 'rv/framefuzz.py', 'serves_properties': ['C13'],
              'kind_free_text': 'real TcpConnection pair on simulated sockets (rv/socksim.py), adversarial fragmentation and corruption'},
+            {'name': 'E2 socksim', 'path': 'rv/e2.py', 'serves_properties': ['C14'],
+             'kind_free_text': 'real SyncObj + TCPTransport + TcpServer + TcpConnection on simulated sockets/poller (rv/socksim.py) with connection-level faults'},
             {'name': 'E5 batterymbt', 'path': 'rv/batterymbt.py', 'serves_properties': ['C15'],
              'kind_free_text': 'model-based testing of the batteries, directly and through E1'},
         ],
